@@ -304,6 +304,16 @@ func runC12(c *wk.Ctx) {
 		c.Begin(2, "directed: a struct-mapped member under two one-of keys, serialized")
 		c12AliasedStruct(c)
 	}
+	// "a function of (schema, argument) only" also from the very first evaluations, which fill the lazily built tables
+	// of unit definitions: 8 goroutines use a fresh definition at once, every result is what a twin used by one
+	// goroutine gives
+	perShard := int(c.N(500, 6000))
+	for k := int64(3); k < 19; k++ {
+		if c.Mine(k) {
+			c.Begin(k, "first evaluations on fresh unit definitions by 8 goroutines")
+			unitsFirstUse(c, "C12", int(k-3)*perShard, int(k-2)*perShard, k%2 == 0)
+		}
+	}
 	n := c.N(6000, 600000)
 	c.Cases(n, func(idx int64, r *wk.Rand) {
 		cfg := gen.Full()
